@@ -195,45 +195,39 @@ theorem ctfTRu_trichotomy (target : MG Name) (ds : List Domain) (e : Event) (hv 
     rw [hk, ctfTRu_invalid_iff, hv] at h
     cases h
 
-/-- an "invalid input" outcome of ctfTR is a rejection by its own validator or comes from a part after validation
-(`derive` / `line4` are parameters; for the instantiation of the harness they raise internal errors only) -/
-theorem ctfTR_invalid_of_validator (derive : MG Name → Event → Event → Except Err Event)
-    (line4 : Event → Event → Expr → Event → Except Err (Option Answer))
-    (target : MG Name) (ds : List Domain) (o c : Event) (err : Err) (h : validateC target ds o c = .error err) :
-    ctfTR derive line4 target ds o c = .error err := by
+/-- a rejection by the conditional validator is the result of ctfTR -/
+theorem ctfTR_invalid_of_validator (target : MG Name) (ds : List Domain) (o c : Event) (err : Err)
+    (h : validateC target ds o c = .error err) : ctfTR target ds o c = .error err := by
   unfold ctfTR; rw [h]
 
-/-- **Trichotomy of ctfTR** relative to its parts: with an accepted input, the result is whatever the composition
-`derive ; ctfTRu ; line4` produces — an answer, FAIL, or an error raised by one of the three parts. -/
-theorem ctfTR_trichotomy (derive : MG Name → Event → Event → Except Err Event)
-    (line4 : Event → Event → Expr → Event → Except Err (Option Answer))
-    (target : MG Name) (ds : List Domain) (o c : Event) (hv : validateC target ds o c = .ok ()) :
-    (∃ a, ctfTR derive line4 target ds o c = .ok (some a)) ∨ ctfTR derive line4 target ds o c = .ok none ∨
-    (∃ err, derive target o c = .error err ∧ ctfTR derive line4 target ds o c = .error err) ∨
-    (∃ d err, derive target o c = .ok d ∧ ctfTRu target ds d = .error err ∧ ctfTR derive line4 target ds o c = .error err) ∨
-    (∃ d x ev err, derive target o c = .ok d ∧ ctfTRu target ds d = .ok (some (x, some ev)) ∧
-        line4 o c x ev = .error err ∧ ctfTR derive line4 target ds o c = .error err) := by
-  unfold ctfTR; rw [hv]; simp only []
-  cases hd : derive target o c with
-  | error err => exact Or.inr (Or.inr (Or.inl ⟨err, rfl, by simp [bind, Except.bind]⟩))
-  | ok d =>
-    simp only [bind, Except.bind]
-    cases hu : ctfTRu target ds d with
-    | error err => exact Or.inr (Or.inr (Or.inr (Or.inl ⟨d, err, rfl, hu, rfl⟩)))
-    | ok r =>
-      cases r with
-      | none => exact Or.inr (Or.inl rfl)
-      | some a =>
-        obtain ⟨x, oev⟩ := a
-        cases oev with
-        | none => exact Or.inl ⟨(x, none), rfl⟩
-        | some ev =>
-          simp only []
-          cases hl : line4 o c x ev with
-          | error err => exact Or.inr (Or.inr (Or.inr (Or.inr ⟨d, x, ev, err, rfl, hu, hl, rfl⟩)))
-          | ok r' => cases r' with
-            | none => exact Or.inr (Or.inl rfl)
-            | some a' => exact Or.inl ⟨a', rfl⟩
+/-- an "invalid input" outcome of ctfTR is exactly a rejection by its own validator: whatever the derivation of `D*`,
+Algorithm 2 (its validator included) or the final checks raise after validation is another error -/
+theorem ctfTR_invalid_iff (target : MG Name) (ds : List Domain) (o c : Event) (k : String) :
+    ctfTR target ds o c = .error (.invalidInput k) ↔ validateC target ds o c = .error (.invalidInput k) := by
+  unfold ctfTR
+  cases hv : validateC target ds o c with
+  | error err => simp
+  | ok u =>
+    simp only []
+    constructor
+    · intro h; exact absurd h (by unfold ctfTRCore; exact afterValidation_not_invalid _ k)
+    · intro h; cases h
+
+/-- **Trichotomy of ctfTR.**  An input accepted by the validator is answered, refused (FAIL), or ends in an error that
+is NOT a validation error (what the property forbids; `ctfTR_no_internal_error_partial` below excludes it outside the
+stated crash classes). -/
+theorem ctfTR_trichotomy (target : MG Name) (ds : List Domain) (o c : Event) (hv : validateC target ds o c = .ok ()) :
+    (∃ a, ctfTR target ds o c = .ok (some a)) ∨ ctfTR target ds o c = .ok none ∨
+    ∃ err, ctfTR target ds o c = .error err ∧ ∀ k, err ≠ .invalidInput k := by
+  cases h : ctfTR target ds o c with
+  | ok r => cases r with
+    | none => exact Or.inr (Or.inl rfl)
+    | some a => exact Or.inl ⟨a, rfl⟩
+  | error err =>
+    refine Or.inr (Or.inr ⟨err, rfl, ?_⟩)
+    intro k hk
+    rw [hk, ctfTR_invalid_iff, hv] at h
+    cases h
 
 -- OPEN: ctf_no_internal_error
 --   theorem ctf_no_internal_error (hv : validateU target ds e = .ok ()) (hwf : target.WF ∧ ∀ d ∈ ds, d.graph.WF) :
